@@ -22,7 +22,7 @@ func init() {
 			"E4 a sliding delete passed (or deferred) on every exit of the operation that inserts, E5 consume-by-job with the mark also cleared when the job is withdrawn; exempt fields are listed with the reason; " +
 			"(2) the pending-attestations mark is set under its mutex before the attestation job's goroutine is started, for the duty's own slot; cleared by a defer at the start of the job function; cleared on every successful cancel of an attestation job; read under the lock; the shutdown wait polls exactly that mark for the current slot; " +
 			"(3) every goroutine started per element of a collection that sends its result on a channel with a plain send has a channel whose capacity is the size of that collection (or sends inside a select with a done arm): a smaller buffer leaves the later senders blocked for ever. " +
-			"Added with the third seeding round: (4) every strategy fan-out runs under a context derived from the strategy's WithTimeout/WithDeadline (followed through parameters). Added with the fourth seeding round: (1, extended) a sliding delete that depends on an earlier call's success is no evidence; (5) wait groups balance module-wide. Added with the fifth seeding round: (6) the unblinding goroutines never wait for a semaphore with a blocking Acquire; (y) C02.d, C05.e and C12.l are taken over. Added with the sixth seeding round and the false-alarm regression: (y) C18.e (the cleaner's cut-off) is taken over; (x) no epoch/slot re-typing without the slots-per-epoch factor. Added with the seventh seeding round: (1, extended) a pruning loop removes the entries that lie before its reference point. Added with the tenth seeding round: (2, extended) the pending mark is cleared only by the job's own deferred clear or on the success edge of a CancelJob. NOT decided: actual sizes over long runs, memory held by libraries, goroutines blocked inside client calls that ignore their context, timing of the shutdown wait.",
+			"Added with the third seeding round: (4) every strategy fan-out runs under a context derived from the strategy's WithTimeout/WithDeadline (followed through parameters). Added with the fourth seeding round: (1, extended) a sliding delete that depends on an earlier call's success is no evidence; (5) wait groups balance module-wide. Added with the fifth seeding round: (6) the unblinding goroutines never wait for a semaphore with a blocking Acquire; (y) C02.d, C05.e and C12.l are taken over. Added with the sixth seeding round and the false-alarm regression: (y) C18.e (the cleaner's cut-off) is taken over; (x) no epoch/slot re-typing without the slots-per-epoch factor. Added with the seventh seeding round: (1, extended) a pruning loop removes the entries that lie before its reference point. Added with the tenth seeding round: (2, extended) the pending mark is cleared only by the job's own deferred clear or on the success edge of a CancelJob. Added at the end: (7) a metric label that is formatted from a number is formatted from a remainder, a constant or a flag at every call of the metrics helper (the label set stays bounded). NOT decided: actual sizes over long runs, memory held by libraries, goroutines blocked inside client calls that ignore their context, timing of the shutdown wait.",
 		Technique:   "who-writes analysis of map fields with evidence search by path queries (must-pass-through, defer-aware), config-flag dependence by single-edge deletion, provenance of channel capacities through parameters, lock-set dataflow",
 		Rule:        "one obligation per subject map field (1), per mark set/clear/read site (2), per fan-out goroutine/channel pair (3)",
 		Assumptions: []string{"E3 (single-key sliding delete on an event root) assumes at least one timely head event per key step; recorded, not proved"},
@@ -815,6 +815,138 @@ func runC20(p *core.Prog, r *core.Report, tier string) {
 	}
 	r.Floor("C20.6 semaphore operations in unblinding goroutines", nSemOps, 4)
 	r.Hold("C20.6", "unblinding|semaphore-never-waited-for", "", fmt.Sprintf("%d semaphore operations in the unblinding goroutines examined", nSemOps))
+
+	// ---------- (7) metric series stay bounded: a label value that is formatted from a number is formatted from a
+	// remainder (a position within an epoch, a bucket), a constant or a flag — at every call of the metrics helper.
+	// A label formatted from a slot, an epoch or an index adds a time series (with all its buckets) per value, for the
+	// life of the process. (Labels that are names — providers, strategies, job classes — come from configured finite
+	// sets and are not judged.) ----------
+	nLabels := 0
+	var boundedInt func(v ssa.Value, depth int) (bool, string)
+	boundedInt = func(v ssa.Value, depth int) (bool, string) {
+		for i := 0; i < 4; i++ {
+			switch x := v.(type) {
+			case *ssa.Convert:
+				v = x.X
+				continue
+			case *ssa.ChangeType:
+				v = x.X
+				continue
+			case *ssa.MakeInterface:
+				v = x.X
+				continue
+			}
+			break
+		}
+		switch x := v.(type) {
+		case *ssa.Const:
+			return true, ""
+		case *ssa.BinOp:
+			if x.Op == token.REM || x.Op == token.AND {
+				return true, ""
+			}
+			return false, ds.D(x).String()
+		case *ssa.Phi:
+			for _, e := range x.Edges {
+				if ok, why := boundedInt(e, depth); !ok {
+					return false, why
+				}
+			}
+			return true, ""
+		case *ssa.Parameter:
+			if depth > 3 {
+				return false, ds.D(x).String()
+			}
+			k := core.ParamIndex(x.Parent(), x.Name())
+			os := p.ParamOrigins(x.Parent(), k, 0)
+			if len(os) == 0 {
+				return false, "parameter " + x.Name() + " (no call found)"
+			}
+			for _, o := range os {
+				if ok, why := boundedInt(o, depth+1); !ok {
+					return false, why
+				}
+			}
+			return true, ""
+		}
+		if b, ok := v.Type().Underlying().(*types.Basic); ok && b.Info()&types.IsBoolean != 0 {
+			return true, ""
+		}
+		return false, ds.D(v).String()
+	}
+	for _, f := range p.SrcFuncs() {
+		core.EachInstr(f, func(in ssa.Instruction) {
+			c, ok := in.(*ssa.Call)
+			if !ok || core.MethodName(c.Common()) != "WithLabelValues" {
+				return
+			}
+			// the label values: elements stored into the variadic slice
+			for _, a := range c.Call.Args {
+				sl, ok := a.(*ssa.Slice)
+				if !ok {
+					continue
+				}
+				al, ok := sl.X.(*ssa.Alloc)
+				if !ok || al.Referrers() == nil {
+					continue
+				}
+				for _, ref := range *al.Referrers() {
+					ia, ok := ref.(*ssa.IndexAddr)
+					if !ok || ia.Referrers() == nil {
+						continue
+					}
+					for _, r2 := range *ia.Referrers() {
+						st, ok := r2.(*ssa.Store)
+						if !ok {
+							continue
+						}
+						// formatted from a number?
+						fc, ok := st.Val.(*ssa.Call)
+						if !ok {
+							continue
+						}
+						name := core.CalleeName(fc.Common())
+						var nums []ssa.Value
+						switch {
+						case name == "fmt.Sprintf" || name == "fmt.Sprint":
+							for _, fa := range fc.Call.Args {
+								if vs, ok := fa.(*ssa.Slice); ok {
+									if val, ok := vs.X.(*ssa.Alloc); ok && val.Referrers() != nil {
+										for _, r3 := range *val.Referrers() {
+											if ia2, ok := r3.(*ssa.IndexAddr); ok && ia2.Referrers() != nil {
+												for _, r4 := range *ia2.Referrers() {
+													if st2, ok := r4.(*ssa.Store); ok {
+														x := st2.Val
+														if mi, ok := x.(*ssa.MakeInterface); ok {
+															x = mi.X
+														}
+														if b, ok := x.Type().Underlying().(*types.Basic); ok && b.Info()&types.IsInteger != 0 {
+															nums = append(nums, x)
+														}
+													}
+												}
+											}
+										}
+									}
+								}
+							}
+						case strings.HasPrefix(name, "strconv.Itoa") || strings.HasPrefix(name, "strconv.Format"):
+							if len(fc.Call.Args) > 0 {
+								nums = append(nums, fc.Call.Args[0])
+							}
+						}
+						for _, x := range nums {
+							nLabels++
+							ok, why := boundedInt(x, 0)
+							r.Check(ok, "C20.7", fmt.Sprintf("%s|metric-label-from-number#%d|bounded", core.FnKey(f), nLabels), p.Pos(c.Pos()), "the number a metric label is formatted from is a remainder, a constant or a flag at every call",
+								"a metric label is formatted from "+why+", which grows with the chain: every new value adds a time series (and its buckets) to the registry for the life of the process")
+						}
+					}
+				}
+			}
+		})
+	}
+	r.Floor("C20.7 metric labels formatted from numbers", nLabels, 1)
 
 	// ---------- (5) wait groups balance everywhere: a goroutine stuck in Wait (and whatever it holds) is never freed ----------
 	nWG := checkWaitGroupBalance(p, r, "C20.5", p.SrcFuncs(), "the waiting goroutine and everything it references stay for ever, one more per call")
